@@ -22,6 +22,7 @@ from pyvc.lib.seq import SymSeq
 from pyvc.lib.stdlib import OpaqueValue
 
 PROPERTY = 'C18'
+LEVEL = 'other'        # mixed: data pairing proved, segment geometry bounded (MANIFEST level_claimed.category)
 CONFIGS = [('CFGrid1D', {}, ('lat', 'lon')), ('CFGrid2D', {}, ('j', 'i')), ('ShocStandard', {}, ('j_centre', 'i_centre')), ('UGrid', {'edges': 'none'}, ('nface',))]
 
 
